@@ -9,7 +9,7 @@
                       exactly the temporaries, every live region is an old one or the temporary of a new move)
                       gives VamInv of the state after the write-back and validity of the pending moves. *)
 From Coq Require Import ZArith NArith List Bool Lia Permutation.
-From Arsenal Require Util Bits Gran Tlsf TlsfStep TlsfInv2 SyncMem Budget Select Pass PassProofs Defrag DefragProofs.
+From Arsenal Require Util Bits Gran Tlsf TlsfStep TlsfInv2 SyncMem Budget Select Pass PassProofs Defrag DefragProofs VamDefragBridge.
 From Arsenal Require Import VamDev VamBlockList VamDefrag Vam VamInvMeta VamInv VamInvUpd VamInvDev VamInvStep VamInvStep2 VamInvThm
   VamDefragInv VamDefragStep.
 Import ListNotations.
@@ -394,6 +394,62 @@ Proof.
     unfold zlen. rewrite app_length. cbn [length]. lia.
 Qed.
 
+(* a commit attempt alone (RecordSuballocSubfree + Map on the destination block) changes only the device state and the
+   block's SynchronizedMemory *)
+Lemma commit_attempt_rel v1 w lr l1 done slot dst :
+  cm_rel v1 w lr l1 done -> NoDup (map bk_id (bl_blocks l1)) -> cm_rel v1 (fst (commit_attempt c w lr slot dst)) lr l1 done.
+Proof.
+  intros [(lw & Hgw & Hcfg & Hids & Hbl) Hoth Hrest Hmach (tmps & Htab & Htmps)] Hnd. unfold commit_attempt.
+  destruct (get_block w lr dst) as [b|] eqn:Hgb; [|constructor; eauto 10].
+  destruct (get_block_in _ _ _ _ Hgb) as (l' & Hg' & Hb & Hbid). assert (l' = lw) by congruence. subst l'. clear Hg'.
+  pose proof (sm_sub_same (v_m w) (bk_mem b) (bk_sm b)) as Hsub.
+  destruct (sm_sub (v_m w) (bk_mem b) (bk_sm b)) as (m1 & s1). cbn [fst] in Hsub.
+  assert (Hmap : mach_same m1 (fst (fst (if a_persist (get_alloc w (Z.of_nat slot)) then sm_map c m1 (bk_mem b) s1 else (m1, s1, OK tt))))).
+  { destruct (a_persist _); [apply sm_map_same|apply mach_same_refl]. }
+  destruct (if a_persist (get_alloc w (Z.of_nat slot)) then sm_map c m1 (bk_mem b) s1 else (m1, s1, OK tt)) as ((m2 & s2) & mr). cbn [fst] in *.
+  set (nb := mkBlock (bk_id b) (bk_mem b) s2 (bk_meta b)).
+  assert (Hndw : NoDup (map bk_id (bl_blocks lw))) by (rewrite Hids; exact Hnd).
+  assert (Hgm : get_blist (set_m w m2) lr = Some lw) by (rewrite get_blist_set_m; exact Hgw).
+  destruct (put_block_lookup (set_m w m2) lr lw b nb Hgm Hndw Hb eq_refl) as (Hg2 & Hnb & _).
+  destruct (Hbl _ Hb) as (b0 & Hb0 & Hi0 & Hm0 & Hmt0).
+  constructor.
+  - exists (set_blocks lw (replace_block (bl_blocks lw) nb)). split; [exact Hg2|].
+    split; [rewrite set_blocks_twice; exact Hcfg|]. split; [cbn; rewrite replace_block_ids; exact Hids|].
+    intros b' Hb'. cbn in Hb'. destruct (in_replace_block _ _ _ Hndw Hb') as [(-> & _)|(Hin & _)]; [|auto].
+    exists b0. split; [exact Hb0|]. unfold bsame, nb. cbn. auto.
+  - intros lr1 Hne. rewrite put_block_other by exact Hne. rewrite get_blist_set_m. apply Hoth. exact Hne.
+  - eapply rest_eq_trans; [exact Hrest|]. eapply rest_eq_trans; [apply (rest_eq_set_m w m2)|apply rest_eq_put_block].
+  - assert (E : v_m (put_block (set_m w m2) lr nb) = m2) by (unfold put_block; rewrite Hgm, set_blist_m; reflexivity).
+    rewrite E. eapply mach_same_trans; [exact Hmach|]. eapply mach_same_trans; [exact Hsub|exact Hmap].
+  - exists tmps. rewrite put_block_tab''. cbn [v_tab set_m]. auto.
+Qed.
+
+Lemma log_moves_app a b : Defrag.log_moves (a ++ b) = Defrag.log_moves a ++ Defrag.log_moves b.
+Proof. induction a as [|[s d|m] a IH]; cbn; [reflexivity|exact IH|rewrite IH; reflexivity]. Qed.
+
+Lemma replay_rel log : forall v1 w lr l1 done,
+  cm_rel v1 w lr l1 done -> NoDup (map bk_id (bl_blocks l1)) -> Forall (fun mv => src_of mv < zlen (v_tab v1)) (Defrag.log_moves log) ->
+  let '(w', r) := replay_log c w lr log in
+  match r with
+  | OK _ => cm_rel v1 w' lr l1 (done ++ Defrag.log_moves log) /\
+            map tmp_of (Defrag.log_moves log) = map (fun i => zlen (v_tab v1) + zlen done + Z.of_nat i) (seq 0 (length (Defrag.log_moves log)))
+  | ER _ => False
+  | _ => True
+  end.
+Proof.
+  induction log as [|[slot dst|mv] tl IH]; intros v1 w lr l1 done R Hnd Hsrc; cbn [replay_log Defrag.log_moves].
+  - rewrite app_nil_r. split; [exact R|reflexivity].
+  - pose proof (commit_attempt_rel v1 w lr l1 done slot dst R Hnd) as R1. destruct (commit_attempt c w lr slot dst) as (w1 & r). cbn [fst] in R1.
+    destruct r as [[]|code| |]; try exact I; apply (IH v1 w1 lr l1 done R1 Hnd Hsrc).
+  - inversion Hsrc as [|? ? Hs1 Hs2]; subst.
+    pose proof (commit_move_rel v1 w lr l1 done mv R Hnd Hs1) as P. destruct (commit_move c w lr mv) as (w1 & r).
+    destruct r as [[]|code| |]; auto. destruct P as (R1 & Et).
+    pose proof (IH v1 w1 lr l1 (done ++ [mv]) R1 Hnd Hs2) as Q. destruct (replay_log c w1 lr tl) as (w2 & r2).
+    destruct r2 as [[]|code| |]; auto. destruct Q as (R2 & Em). rewrite <- app_assoc in R2. split; [exact R2|].
+    cbn [map length seq]. f_equal; [rewrite Et; lia|]. rewrite Em, <- seq_shift, map_map. apply map_ext. intros i.
+    unfold zlen. rewrite app_length. cbn [length]. lia.
+Qed.
+
 (* ---------------------------------------------------------------- the write-back keeps the invariant *)
 
 Lemma unproject_ids bs bl' : map bk_id (unproject_blocks bs bl') = map bk_id bs.
@@ -418,20 +474,20 @@ Proof. split; [lia|auto]. Qed.
 Lemma grown_trans a b d : grown a b -> grown b d -> grown a d.
 Proof. intros (A1 & A2) (B1 & B2). split; [lia|]. intros s Hs. rewrite B2 by lia. apply A2. exact Hs. Qed.
 
-Lemma writeback_inv v lr l bl ms0 p0 ix cs new :
+Lemma writeback_inv v lr l bl ms0 p0 ix cs new log :
   VamInv c v -> get_blist v lr = Some l -> project_blocks (bl_blocks l) = Some bl ->
   DefragProofs.WF (Defrag.mkD bl (map (project_entry lr) (v_tab v)) false) ->
   DefragProofs.CInv (Defrag.mkD bl (map (project_entry lr) (v_tab v)) false) ms0 p0 ix cs new ->
-  ix = Defrag.indexed (Defrag.mkD bl (map (project_entry lr) (v_tab v)) false) ->
+  ix = Defrag.indexed (Defrag.mkD bl (map (project_entry lr) (v_tab v)) false) -> new = Defrag.log_moves log ->
   let v1 := set_blist v lr (set_blocks l (unproject_blocks (bl_blocks l) (Defrag.d_blocks (Defrag.cs_st cs)))) in
-  let '(v2, r) := commit_moves c v1 lr new in
+  let '(v2, r) := replay_log c v1 lr log in
   match r with
   | OK _ => VamInv c v2 /\ lists_frame v v2 /\ grown v v2 /\ moves_ok v2 lr new
   | ER _ => False
   | _ => True
   end.
 Proof.
-  intros HI Hg Epb HW HC Hix. cbn zeta.
+  intros HI Hg Epb HW HC Hix Hlog. cbn zeta.
   set (st := Defrag.mkD bl (map (project_entry lr) (v_tab v)) false) in *.
   pose proof (DefragProofs.ci_wf _ _ _ _ _ _ HC) as HW'. pose proof (DefragProofs.ci_ext _ _ _ _ _ _ HC) as He.
   pose proof (DefragProofs.ci_ok _ _ _ _ _ _ HC) as Hok. rewrite Forall_forall in Hok.
@@ -459,8 +515,8 @@ Proof.
     unfold st in Hlen. cbn [Defrag.d_table] in Hlen. rewrite map_length in Hlen. unfold tmp_of, zlen. lia. }
   assert (Hsrcs : Forall (fun mv => src_of mv < zlen (v_tab v1)) new).
   { apply Forall_forall. intros m Hm. destruct (Hmv m Hm) as (_ & _ & a & _ & _ & Sa & _). rewrite Htab1. apply (slot_is_range _ _ _ Sa). }
-  pose proof (commit_moves_rel new v1 v1 lr l1 [] (cm_rel_init v1 lr l1 Hg1) Hnd1 Hsrcs) as P.
-  destruct (commit_moves c v1 lr new) as (v2 & r). destruct r as [[]|code| |]; auto.
+  pose proof (replay_rel log v1 v1 lr l1 [] (cm_rel_init v1 lr l1 Hg1) Hnd1 ltac:(rewrite <- Hlog; exact Hsrcs)) as P.
+  destruct (replay_log c v1 lr log) as (v2 & r). destruct r as [[]|code| |]; auto. rewrite <- Hlog in P.
   destruct P as ([(l2 & Hg2 & Hcfg & Hids2 & Hbl2) Hoth Hrest Hmach (tmps & Htab & Htmps)] & Hidx).
   cbn [app] in Htmps. rewrite Htab1 in Htab, Hidx. cbn [zlen length] in Hidx.
   assert (Hidx' : map tmp_of new = map (fun i => zlen (v_tab v) + Z.of_nat i) (seq 0 (length new))).
@@ -643,15 +699,17 @@ Proof.
   assert (Est : exists bl, project_blocks (bl_blocks l) = Some bl /\ st = Defrag.mkD bl (map (project_entry (dc_lr dc)) (v_tab v)) false).
   { unfold project in Ep. rewrite Hg in Ep. destruct (project_blocks (bl_blocks l)) as [bl|]; [|discriminate]. injection Ep as <-. eauto. }
   destruct Est as (bl & Epb & ->).
-  destruct (DefragProofs.collect_moves_inv _ (dc_ctx dc) p HW Hrun) as (new & HC & _).
-  destruct (Defrag.collect_moves _ (dc_ctx dc) p) as (cs & wr). cbn [fst] in HC.
-  pose proof (DefragProofs.ci_moves _ _ _ _ _ _ HC) as Hms. rewrite Hidle in Hms. cbn [app] in Hms.
-  pose proof (writeback_inv v (dc_lr dc) l bl _ _ _ cs new HI Hg Epb HW HC eq_refl) as P. cbn zeta in P.
-  rewrite Hidle. cbn [length skipn]. rewrite Hms.
+  destruct (VamDefragBridge.collect_moves_f_inv_g1 vam (att_commit c (dc_lr dc)) _ (dc_ctx dc) p v HW Hrun) as (new & HC & _).
+  destruct (VamDefragBridge.collect_moves_f_log_g1 vam (att_commit c (dc_lr dc)) (Defrag.mkD bl (map (project_entry (dc_lr dc)) (v_tab v)) false) (dc_ctx dc) p v) as (Hlg & _).
+  destruct (Defrag.collect_moves_f vam (att_commit c (dc_lr dc)) _ (dc_ctx dc) p v) as (((cs & env) & log) & wr).
+  unfold Defrag.res_f, Defrag.log_f in *. cbn [fst snd] in HC, Hlg.
+  pose proof (DefragProofs.ci_moves _ _ _ _ _ _ HC) as Hms. rewrite Hidle in Hms, Hlg. cbn [app] in Hms, Hlg.
+  assert (Hnew : new = Defrag.log_moves log) by congruence.
+  pose proof (writeback_inv v (dc_lr dc) l bl _ _ _ cs new log HI Hg Epb HW HC eq_refl Hnew) as P. cbn zeta in P.
   assert (Hw : PassProofs.pass_running (Defrag.cs_pass cs)) by (apply (DefragProofs.ci_within _ _ _ _ _ _ HC)).
   destruct wr as [| |why]; [| |exact I];
-    (destruct (commit_moves c _ (dc_lr dc) new) as (v2 & r); destruct r as [[]|code| |]; auto;
-     destruct P as (I2 & L2 & G2 & M2); cbn [dc_lr dc_ctx Defrag.c_moves]; auto 10).
+    (destruct (replay_log c _ (dc_lr dc) log) as (v2 & r); destruct r as [[]|code| |]; auto;
+     destruct P as (I2 & L2 & G2 & M2); cbn [dc_lr dc_ctx Defrag.c_moves]; rewrite Hms; auto 10).
 Qed.
 
 (* ---------------------------------------------------------------- BeginDefragPass *)
